@@ -212,6 +212,11 @@ class _ReadSourceGenerator:
 
             # Everything else - basic and composite types (and arrays of them)
             else:
+                if self.align and field.offset is None:
+                    # The padding in front of a field at a dynamic offset depends on the position at run time,
+                    # so such fields can't share a block (and its fixed padding) with their predecessors
+                    yield from flush()
+
                 if not current_block and field.offset is not None and field.offset != current_offset:
                     # The block starts after a gap (alignment or an explicit offset) that no preceding read covered
                     yield f"stream.seek(o + {field.offset})"
